@@ -1,14 +1,52 @@
-(** Property C01 -- total on every input: no panic, no hang (PARTIAL: the resize / reflow core; see DESIGN.md).
+(** Property C01 -- total on every input: no panic, no hang.
     Only pinned statements, closed by [exact], with their assumptions printed. *)
-From Avt Require Import Model.Vt Proofs.Inv Proofs.ReflowCore Proofs.Resize.
+From Avt Require Import Oracles.Step Proofs.Inv Proofs.ReflowCore Proofs.Resize Proofs.ParserInv Proofs.InvStep.
 
-(** The reflow loop never exhausts its fuel (= terminates), never trips the width assertion and never panics, for EVERY list of lines and every new width >= 1. *)
+(** For every size >= 1x1, every scrollback limit and EVERY sequence of public mutating calls - feed(c) for any code point c (all of N), feed_str("") / end of feed_str, resize to any size >= 1x1 - the model never reaches a panic site (index / range out of bounds, usize underflow, rotate beyond length, unwrap on None, the reflow assertion, u8 arithmetic overflow in the parser) and never exhausts the fuel of its four while-loops (= they terminate), and the invariant holds afterwards. *)
+Theorem C01_no_panic : forall c r l ops, 1 <= c -> 1 <= r -> Forall op_ok ops -> exists v, runM (vt_new c r l) ops = Ok v /\ Inv v.
+Proof. exact C01_no_panic. Qed.
+Check C01_no_panic : forall c r l ops, 1 <= c -> 1 <= r -> Forall op_ok ops -> exists v, runM (vt_new c r l) ops = Ok v /\ Inv v.
+Print Assumptions C01_no_panic.
+
+(** one operation from any state satisfying the invariant *)
+Theorem C01_step : forall v o, Inv v -> op_ok o -> exists v' out, stepM v o = Ok (v', out) /\ Inv v'.
+Proof. exact stepM_Inv. Qed.
+Check C01_step : forall v o, Inv v -> op_ok o -> exists v' out, stepM v o = Ok (v', out) /\ Inv v'.
+Print Assumptions C01_step.
+
+Theorem C01_feed_str : forall v s, Inv v -> exists v' o, feed_str v s = Ok (v', o) /\ Inv v'.
+Proof. exact feed_str_Inv. Qed.
+Check C01_feed_str : forall v s, Inv v -> exists v' o, feed_str v s = Ok (v', o) /\ Inv v'.
+Print Assumptions C01_feed_str.
+
+(** dump() never panics (chunks are never empty, the wrap-pending cell exists, parser parameters in range) *)
+Theorem C01_dump : forall v, Inv v -> exists s, vt_dump v = Ok s.
+Proof. exact vt_dump_ok. Qed.
+Check C01_dump : forall v, Inv v -> exists s, vt_dump v = Ok s.
+Print Assumptions C01_dump.
+
+Theorem C01_view : forall v, Inv v -> vt_view v = Ok (view (buf (vterm v))).
+Proof. exact vt_view_ok. Qed.
+Check C01_view : forall v, Inv v -> vt_view v = Ok (view (buf (vterm v))).
+Print Assumptions C01_view.
+
+(** line(n) for n < rows *)
+Theorem C01_line : forall v n, Inv v -> n < rows (vterm v) -> vt_line v n = Ok (row_at (view (buf (vterm v))) n) /\ length (cells (row_at (view (buf (vterm v))) n)) = cols (vterm v).
+Proof. exact vt_line_ok. Qed.
+Check C01_line : forall v n, Inv v -> n < rows (vterm v) -> vt_line v n = Ok (row_at (view (buf (vterm v))) n) /\ length (cells (row_at (view (buf (vterm v))) n)) = cols (vterm v).
+Print Assumptions C01_line.
+
+Theorem C01_parser : forall p c, PInv p -> exists p' f, feedM p c = Ok (p', f).
+Proof. exact feedM_total. Qed.
+Check C01_parser : forall p c, PInv p -> exists p' f, feedM p c = Ok (p', f).
+Print Assumptions C01_parser.
+
+(** The reflow loop terminates within its fuel and never trips the width assertion for EVERY list of lines and every width >= 1. *)
 Theorem C01_reflow_total : forall ls c, 1 <= c -> exists out, reflowM ls c = Ok out /\ Forall (LineInv c) out /\ (ls <> [] -> out <> []) /\ (last_not_wrapped ls -> last_not_wrapped out).
 Proof. exact reflow_total. Qed.
 Check C01_reflow_total : forall ls c, 1 <= c -> exists out, reflowM ls c = Ok out /\ Forall (LineInv c) out /\ (ls <> [] -> out <> []) /\ (last_not_wrapped ls -> last_not_wrapped out).
 Print Assumptions C01_reflow_total.
 
-(** Buffer::resize never panics (no index out of range, no usize underflow, fuelled cursor-translation loops terminate) for every buffer satisfying the geometry invariant, every new size >= 1x1 and every cursor the callers can pass; the result satisfies the geometry invariant again. *)
 Theorem C01_resize_total : forall b nc nr cc cr, BInv b -> 1 <= nc -> 1 <= nr -> (nc = bcols b -> cr < Nat.max (brows b) nr) -> exists b' cc' cr', buf_resize b nc nr cc cr = Ok (b', (cc', cr')) /\ BInv b' /\ bcols b' = nc /\ brows b' = nr /\ blimit b' = blimit b /\ trim_needed b' = true /\ cr' < nr /\ (nc <> bcols b -> cc' < nc) /\ (nc = bcols b -> cc' = cc).
 Proof. exact buf_resize_ok'. Qed.
 Check C01_resize_total : forall b nc nr cc cr, BInv b -> 1 <= nc -> 1 <= nr -> (nc = bcols b -> cr < Nat.max (brows b) nr) -> exists b' cc' cr', buf_resize b nc nr cc cr = Ok (b', (cc', cr')) /\ BInv b' /\ bcols b' = nc /\ brows b' = nr /\ blimit b' = blimit b /\ trim_needed b' = true /\ cr' < nr /\ (nc <> bcols b -> cc' < nc) /\ (nc = bcols b -> cc' = cc).
